@@ -182,7 +182,7 @@ func (h *storeHist) check(s *mon.MonStore) {
 // step performs one random operation on the main store.
 func (h *storeHist) step() {
 	r, s := h.r, h.main
-	op := r.Pick(30, 18, 6, 10, 5, 4, 6, 6, 3, 2)
+	op := r.Pick(30, 18, 6, 10, 5, 4, 6, 6, 3, 2, 4)
 	switch op {
 	case 0:
 		h.opKinds["Add"] = true
@@ -288,6 +288,15 @@ func (h *storeHist) step() {
 		if h.checked(t.Spec) && r.P(0.7) {
 			h.main = t
 		}
+	case 10:
+		// decode the encoding of an argument into the main store, which holds content and has just been observed
+		h.opKinds["DecodeInto"] = true
+		a := h.smallArg()
+		if !h.fitsAll(s.Spec, a) || !h.budget.Charge(a.M.Total()) {
+			return
+		}
+		a.EncodeInto(s)
+		h.check(a)
 	case 9:
 		// switch to another checked store of the pool
 		cand := h.pool[r.Intn(len(h.pool))]
